@@ -799,6 +799,13 @@ def run(ctx):
                 "c08:task-order-changes-values"))
         for cfg in configs(ctx, kindm, desc["name"]):
             out = run_pipeline(desc, cfg)
+            if any(e[0] == "StageTimeout" for e in out["errors"].values()):
+                # a pool forked from a process whose JAX runtime already runs threads can deadlock (observed in
+                # this sandbox with the coupled solver): an infrastructure accident, not a property of the schedule
+                ctx.notes.append("stage timed out once for %s, %s; repeated" % (describe(desc), cfg_name(cfg)))
+                out = run_pipeline(desc, cfg)
+                if any(e[0] == "StageTimeout" for e in out["errors"].values()):
+                    raise common.Infra("stage timed out twice (%d s each) for %s, %s" % (STAGE_LIMIT, describe(desc), cfg_name(cfg)))
             diffs = compare(ref, out)
             for st, status in out["stages"].items():
                 pooled = bool([p for p in out["pools"].get(st, [])])
